@@ -164,9 +164,10 @@ def _kabsch(src, tgt, allow_mirror):
 @contract('C07', 'rotation_similarity_native', level='bounded', native_samples=10, tol=1e-6,
           configs=[dict(cls=c, d=d, am=am, rot=r, noise=nz, mirrored=mi) for c in ('AlignmentRotation', 'AlignmentSimilarity') for d in (2, 3)
                    for am in (False, True) for r in ((True, False) if c == 'AlignmentSimilarity' else (True,)) for nz in (0.0, 0.3)
-                   for mi in (False, True)],
+                   for mi in (False, True)] +
+          [dict(cls=c, d=3, am=False, rot=True, noise=0.0, mirrored=False, flat=f) for c in ('AlignmentRotation', 'AlignmentSimilarity') for f in ('plane', 'three-points')],
           functions=['menpo.transform.homogeneous.similarity:procrustes_alignment', 'menpo.transform.homogeneous.rotation:optimal_rotation_matrix'])
-def rotation_similarity_native(ctx, cls, d, am, rot, noise, mirrored):
+def rotation_similarity_native(ctx, cls, d, am, rot, noise, mirrored, flat=None):
     """bounded stand-in (svd of data-dependent matrices): exact recovery of a
     rotation / similarity, least-squares optimality against an independent
     Kabsch reference and against random family members, centroid and size."""
@@ -174,6 +175,15 @@ def rotation_similarity_native(ctx, cls, d, am, rot, noise, mirrored):
     rs = ctx.nprng
     n = rs.randint(d + 1, 9)
     P = rs.randn(n, d) * 3 + rs.randn(d)
+    if flat:
+        # non-degenerate 3-D point sets that span only a plane (a planar landmark set, or exactly three points): the correlation
+        # matrix is rank-deficient, the proper rotation is still unique
+        n = 3 if flat == 'three-points' else rs.randint(4, 8)
+        P2 = np.hstack([rs.randn(n, 2) * 3, np.zeros((n, 1))])
+        W0, _ = np.linalg.qr(rs.randn(3, 3))
+        if np.linalg.det(W0) < 0:
+            W0[:, 0] *= -1
+        P = P2.dot(W0.T) + (rs.randn(3) if flat == 'plane' else 0)
     q = rs.randn(d, d)
     Q, _ = np.linalg.qr(q)
     if np.linalg.det(Q) < 0:
